@@ -203,7 +203,59 @@ def register(gen, T):
                     raise ExtractError(f"find_identifier_in_scope: pattern {p_!r} unsupported")
                 arms.append((pm.group(1), act))
         out.append("/-- what the symbol loop of `find_identifier_in_scope` does with each `ScopeSymbol` variant -/\n")
-        out.append("def findInScopeArms : List (String × String) :=\n  " + T.lean_list('("%s", "%s")' % a for a in arms) + "\n")
+        out.append("def findInScopeArms : List (String × String) :=\n  " + T.lean_list('("%s", "%s")' % a for a in arms) + "\n\n")
+        # ---- register_enum_value: what is refused before a value is inserted (since fix fe5dd8d also the name of a
+        # namespace of the scope that contains the enum), in the order of the checks; end_enum: the promotion loop
+        rv = fn_body(scopes, "register_enum_value")
+        checks = []
+        at = 0
+        for which, scope_pat in (("enum-scope", r'self\.scopes\[self\.current_scope\]'), ("parent-scope", r'self\.scopes\[parent_scope\]')):
+            try:
+                scrut, arms_text, at = first_match(rv, r'^self\.find_identifier_in_scope\(&' + scope_pat + r', &name\)$', at)
+            except ExtractError:
+                raise ExtractError(f"register_enum_value: the check of the {which} by find_identifier_in_scope was not found")
+            for pats, guard, result in match_arms(arms_text):
+                if guard is not None:
+                    raise ExtractError("register_enum_value: guarded arm")
+                r = normws(result)
+                if re.fullmatch(r'\{\s*\}', r):
+                    if pats != ["_"]:
+                        raise ExtractError(f"register_enum_value: arm {pats!r} does nothing")
+                    continue
+                if re.match(r'^\{ return Err\(TyperError::ValueAlreadyDefined\(', r):
+                    act = "refuse"
+                elif re.match(r'^\{ panic!\(', r):
+                    act = "panic"
+                else:
+                    raise ExtractError(f"register_enum_value: arm {pats!r} => {r[:60]!r} unsupported")
+                for p_ in pats:
+                    pm = re.match(r'^Some\(VariableExpression::(\w+)\b', p_)
+                    if not pm:
+                        raise ExtractError(f"register_enum_value: pattern {p_!r} unsupported")
+                    checks.append((which, pm.group(1), act))
+        rest = normws(rv[at:])
+        m = re.match(r'^;? ?if let Some\(symbols\) = self\.scopes\[parent_scope\]\.symbols\.get\(&name\.node\) \{ if symbols \.iter\(\) '
+                     r'\.any\(\|symbol\| matches!\(symbol, (.*?)\)\) \{ return Err\(TyperError::ValueAlreadyDefined\(.*?\)\); \} \} (.*)$', rest)
+        if m:
+            for p_ in m.group(1).split("|"):
+                pm = re.match(r'^ScopeSymbol::(\w+)\(_\)$', p_.strip())
+                if not pm:
+                    raise ExtractError(f"register_enum_value: symbol pattern {p_!r} unsupported")
+                checks.append(("parent-symbols", pm.group(1), "refuse"))
+            rest = m.group(2)
+        # what follows the checks must be the two insertions and nothing that returns
+        if "return" in rest or rest.count("existing_symbols.push(ScopeSymbol::EnumValueUntyped(id))") != 2:
+            raise ExtractError("register_enum_value: after the checks there is more than the two insertions")
+        out.append("/-- `register_enum_value`: (what is looked at, what is found, what happens), in the order of the checks; anything else\n"
+                   "is inserted into the enum scope and into the scope that contains the enum -/\n")
+        out.append("def enumValueChecks : List (String × String × String) :=\n  " +
+                   T.lean_list('("%s", "%s", "%s")' % c for c in checks) + "\n\n")
+        ee = normws(fn_body(scopes, "end_enum"))
+        m = re.search(r'let mut replacements = 0; (for \(name, _\) in &enum_values \{.*?\}) assert_eq!\(replacements, enum_values\.len\(\)\);', ee)
+        if not m:
+            raise ExtractError("end_enum: the promotion loop between `let mut replacements = 0;` and its assertion was not found")
+        out.append("/-- `end_enum`: the loop that promotes the untyped values of the scope that contains the enum -/\n")
+        out.append("def endEnumPromotion : String :=\n  %s\n" % lean_str(m.group(1)))
         out.append(T.footer("PathLookup"))
         return "".join(out)
 
